@@ -280,6 +280,24 @@ def run(F, tier, res):
         else:
             res.violate('MEMO', 'fn=%s;state' % p, 'the blame handler does not store State::Blame(key): the next line cannot see its predecessor', where=F.bodies[p]['mir']['span']['at'])
     res.rule('C17.MEMO', nm, 1, 'memo insert after colour choice; is_repeat provenance; Blame(key) state stored', discharged=okm)
+    # ---------- PAINTED: the colour chosen for this line is the colour painted: on every path from the choice to the return of the function that
+    # asked for it, the chosen colour is parsed into the style (a style taken from anywhere else - a per-key cache, the previous line - can be
+    # the colour the collision test has just moved away from)
+    npd = okpd = 0
+    for fm in sorted(p_ for p_ in F.fn_bodies if any(callee_of(c_) == gc for _, c_ in F.calls(p_))):
+        for i, c in F.calls(fm):
+            if callee_of(c) != gc or c['target'] is None:
+                continue
+            npd += 1
+            parses = {j for j, cc in F.calls(fm) if callee_of(cc).endswith(('::parse_color', 'Style::from_colors')) and
+                      any(r[0] == 'call' and r[1] == gc for a in cc['args'] for r in F.trace(fm, a, deep=True))}
+            miss = Ru.must_pass(F, fm, c['target'], parses) if parses else [0]
+            if miss:
+                res.violate('PAINTED', 'fn=%s' % fm, 'on some path the style returned for a blame line is not built from the colour that was just chosen for it: the collision '
+                            'avoidance decides one colour and another one is painted', where=F.span_of_call(c))
+            else:
+                okpd += 1
+    res.rule('C17.PAINTED', npd, 1, 'colour choices: every path to the return parses the chosen colour into the returned style', discharged=okpd)
     # ---------- DEPTH: collisions are avoided by comparing palette STRINGS; that is sound only while different strings are painted as different
     # colours. The 24-bit -> 256-colour reduction is many-to-one, so the blame colour must be parsed at full depth whatever --true-color says
     nd = okd = 0
